@@ -77,7 +77,10 @@ def run_trace_judge(prop, cases, impl):
         lines = []
         for i, op in enumerate(c.body()):
             lines.append(op)
-            lines.append("obs " + (ir[i] if i < len(ir) else "<missing>"))
+            obs = ir[i] if i < len(ir) else "<missing>"
+            # the raw text of what log.c printed is for the comparison with the model only
+            obs = " ".join(x for x in obs.split(" ") if not x.startswith("said="))
+            lines.append("obs " + obs)
         sc = Case(c.name, lines)
         synth.append(sc)
     recs, _errs = core.run_cases([core.drv_path(DRIVER), "judge"], synth)
@@ -101,6 +104,59 @@ def judge(prop, case, impl_records, spec_records):
 
 def header_len(case):
     return 1
+
+
+NAME_WORD = re.compile(rb"[A-Za-z0-9_]+")
+
+
+def case_projector(prop, case):
+    """model vs code: exit status, the modules the fatal message names (in order of first mention),
+    the full event log.  The wording of the message is not compared: the implementation's record
+    carries what log.c printed (`said=`), the model's its classification (`why=loop:a>b` /
+    `unloadable:m`), and both are reduced to the list of module names of the case's graph."""
+    names = set()
+    for op in case.body():
+        f = op.split(" ")
+        if f and f[0] == "graph" and len(f) > 1:
+            for part in f[1].split(";"):
+                m, _, deps = part.partition(":")
+                names.update(x for x in [m] + deps.split(",") if x and x != "-")
+            for fld in f[2:]:
+                k, _, v = fld.partition("=")
+                if k in ("bad", "list", "nohook"):
+                    names.update(x for x in v.split(",") if x)
+    bnames = set(n.encode() for n in names)
+
+    def proj(i, rec):
+        if not isinstance(rec, str):
+            return rec
+        if rec.startswith("bad-op"):
+            return "bad-op"
+        f = rec.split(" ")
+        if not f or f[0] != "status":
+            return rec
+        why = next((x[4:] for x in f if x.startswith("why=")), "-")
+        said = next((x[5:] for x in f if x.startswith("said=")), None)
+        if said is not None:          # implementation
+            text = b"" if said in ("", "=") else bytes.fromhex(said)
+            # the first line only: a fatal message ends the process, and dlerror()'s own text
+            # (paths) follows the module name on the same line after a colon
+            first = text.split(b"\n")[0]
+            seen = []
+            for w in NAME_WORD.findall(first.split(b": /")[0]):
+                if w in bnames and w.decode() not in seen:
+                    seen.append(w.decode())
+            mention = seen if why != "-" else []
+        else:                         # model
+            if why.startswith("loop:"):
+                mention = why[5:].split(">")
+            elif why.startswith("unloadable:"):
+                mention = [why[11:]]
+            else:
+                mention = []
+        ev = f[f.index("events"):] if "events" in f else []
+        return (f[1], "fatal" if why != "-" else "-", tuple(mention), tuple(ev))
+    return proj
 
 
 def projector(prop):
